@@ -60,7 +60,7 @@ CHECKS = {
         category="model_checking",
         design_ref="5/C06",
         technique="exhaustive configuration enumeration of serial sampling against reference pixel geometry + stateful exhaustive interleaving exploration of the real sampler",
-        text="Serial: depth 0..2 (3) x both coordinate systems x {png with an RGB sampler, npy F32, fits F32 bottom-up} x {clobber, update with an all-true filter, update of an earlier partial sampling by an overlapping, partly undefined one}: the set of tile files and all 65 536 pixels of every tile must equal sampler(reference pixel-centre coordinates of that tile) in display orientation (rows reversed on disk for FITS); depth 0 is the level-8 pixelisation of the whole sphere. Parallel: the real ToastSampler.visit_callback (clobber, and update mode with lock/read/write choice points) under the virtual scheduler, all interleavings, terminal tree = serial tree, no lock files.",
+        text="Serial: depth 0..2 (3) x both coordinate systems x {png with an RGB sampler, npy F32, fits F32 bottom-up} x {clobber, update with an all-true filter, update of an earlier partial sampling by an overlapping, partly undefined one, clobbering re-sampling of an existing pyramid by a sampler undefined over whole tiles}: the set of tile files and all 65 536 pixels of every tile must equal sampler(reference pixel-centre coordinates of that tile) in display orientation (rows reversed on disk for FITS); depth 0 is the level-8 pixelisation of the whole sphere. Parallel: the real ToastSampler.visit_callback (clobber, and update mode with lock/read/write choice points) under the virtual scheduler, all interleavings, terminal tree = serial tree, no lock files.",
         note=_E1_NOTE + " Smooth float sampler compared to 2e-4 absolute; uint8 samples may differ by one count at <=6 pixels per tile. HEALPix samplers need healpy (absent). In the interleaving runs the pure coordinate function is memoised per tile.",
     ),
     "C07": dict(
@@ -84,7 +84,7 @@ CHECKS = {
         category="model_checking",
         design_ref="5/C09",
         technique="exhaustive decomposition x parity x order x format enumeration of multi-TAN tiling against tiling the pasted mosaic + interleaving exploration of the tiling stage",
-        text="Mosaics 300x280, 257x300 (520x260) with a rotated TAN WCS are cut into 2-3 sub-images (cuts at 100/256/257, 10-pixel overlaps with agreeing data, 3-5 pixel NaN borders overlapping defined data of a neighbour, 3-way and L-shaped splits), stored bottom-up or top-down, in every input order, tiled to fits and npy: deepest-level tiles must be pixel-identical to StudyTiling.tile_image of the pasted mosaic, the ImageSet description equal, and no lock file may remain. The real multi-TAN stage with inputs sharing a tile runs under the virtual scheduler (queue, lock, read, write choice points): every terminal tree equals the serial tree.",
+        text="Mosaics 300x280, 257x300 (520x260) with a rotated TAN WCS are cut into 2-3 sub-images (cuts at 100/256/257, 10-pixel overlaps with agreeing data, 3-5 pixel NaN borders overlapping defined data of a neighbour, 3-way and L-shaped splits), stored bottom-up or top-down, stored bottom-up, top-down or mixed, in every input order, tiled to fits and npy (a 600x560 mosaic fills whole tiles): deepest-level tiles must be pixel-identical to StudyTiling.tile_image of the pasted mosaic, the ImageSet description equal, and no lock file may remain. The real multi-TAN stage with inputs sharing a tile runs under the virtual scheduler (queue, lock, read, write choice points): every terminal tree equals the serial tree.",
         note=_E1_NOTE + " Mixed-parity collections are refused by toasty up front and are outside the check; inputs share one pixel grid.",
     ),
     "C10": dict(
@@ -132,7 +132,7 @@ CHECKS = {
         category="model_checking",
         design_ref="5/C15",
         technique="exhaustive pattern enumeration for buffer ops + breadth-first search over operation histories on a tile directory against a reference dict",
-        text="Buffers: all 8 modes x 4 slice-indexer kinds (full, sub-rectangle, negative-step rows to row 0 and inner) x all 2^6 source x 2^6 destination defined/undefined patterns for update, fill (plus pointwise integer-array indexers), clear, is_completely_masked and make_maskable_buffer against a per-pixel reference. Persistence: BFS over histories of a 9-operation alphabet (write defined A/B, partly undefined, all undefined; read default none/masked; update identity/region; stale file) to depth 3 (4) per (mode, lossless format, naming scheme) - 15 pairs x 2 - with the file-exists-iff-reference invariant and exact read-back checked after every step.",
+        text="Buffers: all 8 modes x 4 slice-indexer kinds (full, sub-rectangle, negative-step rows to row 0 and inner) x all 2^6 source x 2^6 destination defined/undefined patterns for update, fill (plus pointwise integer-array indexers), clear, is_completely_masked and make_maskable_buffer against a per-pixel reference. Persistence: BFS over histories of a 9-operation alphabet (write defined A/B, partly undefined, all undefined; read default none/masked; update identity/region; stale file) to depth 3 (4) per (mode, lossless format, naming scheme) - 15 pairs x 2 - with the file-exists-iff-reference invariant and exact read-back checked after every step, also with an explicit format= differing from the pyramid default; defined float pixels include +-inf; buffers handed out for two missing tiles / nested update blocks must not alias. Thorough adds all 2^9 x 2^9 patterns on a 3x3 buffer.",
         note="Format capability table fixed from the formats' definitions. Known finding: all-zero integer tiles are stored (see known_findings.json).",
     ),
     "C16": dict(
@@ -156,7 +156,7 @@ CHECKS = {
         category="fault_enumeration",
         design_ref="5/C18",
         technique="exhaustive crash-point x torn-write x directory-order enumeration on the real publish path with a fault-injecting store",
-        text="The real PipelineManager.publish runs against a LocalPipelineIo wrapped by a fault injector: every file set of 1..5 (6) files with and without index.wtml, every permutation in which os.listdir may return it, and a crash at every transfer in three torn-write modes, before the rename, or not at all; two approved images in both orders. After each crash the store invariant (index.wtml present => all other files complete; image still approved, not published; check_exists as used by refresh), the transfer order and recovery by a fault-free re-run are checked; the real refresh step is run after crashes.",
+        text="The real PipelineManager.publish runs against a LocalPipelineIo wrapped by a fault injector: every file set of 1..5 (6) files with and without index.wtml, every permutation in which os.listdir may return it, and a crash at every transfer in three torn-write modes, before the rename, or not at all; two approved images in both orders. After each crash the store invariant (index.wtml present => all other files complete; image still approved, not published; check_exists as used by refresh), the transfer order and recovery by a fault-free re-run are checked; torn transfers read only half of the source (a retry without rewinding is visible); the real refresh step is run for every listing order x crash point of a file set containing both index files.",
         note="Crash = exception out of put_item/os.rename standing for process death; torn write = strict prefix of the bytes; store = local directory.",
     ),
     "C19": dict(
@@ -164,7 +164,7 @@ CHECKS = {
         category="model_checking",
         design_ref="5/C19",
         technique="fault enumeration (every failing item) x stateful exhaustive interleaving exploration under a virtual scheduler",
-        text="For each of the five parallel stages and each single failing item, all interleavings are explored: every terminal state must have the stage raise to its caller, there is no deadlock, and from every reachable state a terminal state is reachable (no waiting forever). The serial reference behaviour (raises) is checked per configuration.",
+        text="For each of the five parallel stages and each single failing item - raising RuntimeError, OSError or ValueError, or dying abruptly (SIGKILL-like, exit code -9) - all interleavings are explored: every terminal state must have the stage raise to its caller, there is no deadlock, and from every reachable state a terminal state is reachable (no waiting forever); configurations include six and ten simultaneously ready tiles (more than the done queue and a one-item pipe absorb) so that the abort path itself is exercised. An OSError while a cascade reads an existing child (EMFILE, EIO, EACCES, unreadable file) must reach the caller serially (4 children x 4 error kinds) and in parallel (explored). The serial reference behaviour (raises) is checked per configuration.",
         note=_E1_NOTE + " Single fault per run; at least two workers.",
     ),
     "C20": dict(
